@@ -23,7 +23,8 @@ RULE = ('cases = role {requestor, acceptor} x locally configured maximum x peer-
         'over {0, 7, 8, 127, 128, 1024, 16384, 65536, 2^31, 2^32-1} (all pairs) x seeded schedule; '
         'messages with data sets of sizes {< fragment, = fragment, 3 x fragment +- 1} in both '
         'directions; non-trivial = one of the two values is 0 or they differ; distinct = distinct '
-        '(role, local, peer)')
+        '(role, local, peer)'
+        '; plus data sizes for which command set + data set land just below/at/above one PDU')
 ASSUMPTIONS = ['the simulated recv(n) does not allocate n bytes (a 2^32-1 receive buffer is an '
                'OS-level concern outside the model)',
                'data sizes are capped at 6000 bytes: for huge limits all messages fit one fragment']
